@@ -538,7 +538,7 @@ def main(chk):
                 if e["key"].replace('"', "'") in bad and any(e["line"] <= int(n) <= e["end"] for n in
                                                               re.findall(r"%s:(\d+)" % re.escape(e["file"]), d2.get("stack", ""))):
                     matched_bad.add(e["key"].replace('"', "'"))
-        shown = r.get("src") if r["mode"] == "src" else "%s['%s] called with (%s)%s" % (r["recv"], r["prop"], ", ".join(r["args"]), (" kwargs " + r["kw"]) if r.get("kw") else "")
+        shown = (("REPL input " if r["mode"] == "repl" else "script " if r["mode"] == "script" else "") + repr(r.get("src"))) if r["mode"] in ("src", "repl", "script") else "%s['%s] called with (%s)%s" % (r["recv"], r["prop"], ", ".join(r["args"]), (" kwargs " + r["kw"]) if r.get("kw") else "")
         chk.fail("host-level panic in %s: %s  [%s]  (%d cases reach this site)" % (site, shown, d.get("panic", "")[:160], len(lst)),
                  {"case": r, "outcome": d, "how": "echo '<case json>' | build/panharness crash", "other_cases": [x[0] for x in lst[1:6]]},
                  klass="C01:" + site)
